@@ -26,7 +26,7 @@ PROPS["C16"] = dict(
     # longest queries first (scheduling)
     dict(name="c16-perm-hex2", harness="C16_hex.cpp", entries=["harness_c16_perm"], units=HEXU, unwind=150, checks="none", object_bits=13,
          shards={"quick": [{0: 1, 1: 0, 2: 16 * r + t, 3: 1} for r in (0, 2, 4) for t in range(4)],
-                 "thorough": [{0: 1, 1: 0, 2: ch, 3: 4} for ch in range(24)]},
+                 "thorough": [{0: 1, 1: 0, 2: ch, 3: 2} for ch in range(48)]},
          timeout={"quick": 400, "thorough": 1200}, mem_gb=5,
          bounds="second hexahedron of the two-hex base (first cell present, shared face pre-exists with the other halfface in use): add_cell(permuted list, true), first cell added without check from a list in convention order; quick (1 permutation per query, fixed by the shard): rotations 0,2,4 x "
                 "{identity,(0 1),(0 2),(2 3)} (12 permutations), thorough: 6 rotations x 16 (identity + all 15 transpositions) = 96; same assertions as c16-perm-hex for the new cell"),
